@@ -1,7 +1,7 @@
 SPECIFICATION MCSpec
 CONSTANTS
   Clients = {"alice", "bob"}
-  Streams = {"s1", "s2"}
+  Streams = {"s1", "s2", "__cursors"}
   AuthFirst = TRUE
   GroupAuthz = FALSE
   Callers = {"alice"}
